@@ -482,6 +482,9 @@ class Interp:
             return a is b
         if is_concrete(a) and is_concrete(b):
             return a == b
+        if isinstance(a, ClassRef) and isinstance(b, ClassRef):
+            # a class object is the same object wherever its name is evaluated
+            return a.name == b.name
         return a is b
 
     def contains(self, container, item):
